@@ -1,7 +1,11 @@
 (* C11 — BNF grammars survive printing and re-parsing.
-   Only statements + `exact`; proofs are in Codec/BnfEscapeFacts.v.  Model: Codec/BnfEscape.v
+   Only statements + `exact`; proofs are in Codec/BnfEscapeFacts.v (string codec) and, for the
+   grammar-level clauses, Codec/BnfSplitMore.v, BnfLexMore.v, BnfIdentityMore.v, BnfChopMore.v,
+   BnfLangleMore.v, BnfReachMore.v.  Model: Codec/BnfEscape.v
    (escape = escape table of unparse_grammar; unescape = instantiate_escaped_symbols as ordered
-   global replace passes incl. its assertion; string_scan = STRING token rule of bnf.g4).
+   global replace passes incl. its assertion; lex / parse_rules = token and parser rules of bnf.g4;
+   emit_grammar = BnfEmitter incl. free <langle> name, placeholder instantiation, dict assignment
+   and the reachability test).
 
    FULL STATEMENT (codec clause of the property), false for the faithful model:
        forall s, no_placeholder s -> unescape (escape s) = Ok s
@@ -11,10 +15,25 @@
    holds for EVERY other string: all code points (also >= 256), literal backslash followed by
    n or x41, quotes, control characters.
 
-   NOT PROVED here (tied by the correspondence run and searched on the implementation only):
-   no_lt_identity at grammar level through lexer and parser (proved below at alternative level:
-   C11_no_lt_alt_identity), langle_language. *)
-From ISLA Require Import Str Outcome BnfEscape BnfEscapeFacts.
+   GRAMMAR LEVEL (proof extension; all through printer, lexer, parser, unescaping, emitter):
+     * C11_no_lt_identity_partial   FULL identity clause  parse_bnf (unparse_grammar g) = g  for every
+       well-formed grammar g (wf_py: non-empty, distinct keys that are NONTERMINAL tokens, every
+       rule has an alternative, every used nonterminal is defined) with no '<' in a terminal,
+       outside the recorded classes K_besc / K_besc_overlap (terminals), K_nt_escape, K_empty_nt.
+     * C11_chop_language            the grammar-theoretic core of the language clause (no guard):
+       replacing every '<' inside terminals by a fresh nonterminal F ::= "<" preserves `derives`.
+     * C11_langle_language_partial  FULL language clause for every well-formed g with a '<' in some
+       terminal, outside the same classes and K_langle_unreach: the re-parsed grammar contains
+       the rule <langle> ::= "<" and L g' A w <-> L g A w for every nonterminal A of g.
+       C11_langle_language_refuted shows that the guard K_langle_unreach cannot be dropped.
+     * C11_reparse_same_language_partial  both clauses in one statement.
+   Remaining premises that are not classes of findings: `ph_fresh ph g` / `ph_ok ph` (the emitter's
+   random 30-letter placeholder consists of ascii letters and <placeholder> does not occur in g)
+   and `length g < 10^20` (the model prints the <langle_i> index with 20 digits of fuel).
+   NOT PROVED: nothing of the stated property is left open at model level; the ANTLR-generated
+   lexer/parser itself is represented by the rules of bnf.g4 (tied by the correspondence run). *)
+From ISLA Require Import Str Outcome Grammar BnfEscape BnfEscapeFacts BnfSplitMore BnfLexMore
+  BnfIdentityMore BnfChopMore BnfLangleMore BnfReachMore.
 From Coq Require Import List NArith.
 Import ListNotations.
 
@@ -66,3 +85,120 @@ Example C11_no_lt_alt_nonvacuous :
   print_elems ex_alt <> map EStr ex_alt.
 Proof. exact no_lt_alt_example. Qed.
 Print Assumptions C11_no_lt_alt_nonvacuous.
+
+(* ================= grammar level (proof extension) ================= *)
+
+(* helpers.canonical loses nothing: the pieces of an expansion concatenate to the expansion *)
+Theorem C11_canonical_concat : forall s, concat (split_expansion s) = s.
+Proof. exact split_expansion_concat. Qed.
+Print Assumptions C11_canonical_concat.
+
+(* lexer + parser invert the printer for EVERY terminal content (no class excluded except the
+   empty nonterminal <>, which the token rule NONTERMINAL rejects): what reaches the emitter is
+   exactly the rule list that was printed *)
+Theorem C11_front_end : forall ph (g : pygrammar),
+  g <> [] -> Forall (fun r => ntok_shape (fst r) /\ snd r <> []) g -> K_empty_nt g = false ->
+  parse_bnf ph (unparse_grammar g) = emit_grammar ph (map prule_of (canonical g)).
+Proof. exact front_end. Qed.
+Print Assumptions C11_front_end.
+
+(* identity clause.  FULL STATEMENT: forall well-formed g without '<' in terminals,
+   parse_bnf (unparse_grammar g) = Ok g.  Guards = recorded classes only. *)
+Theorem C11_no_lt_identity_partial : forall ph (g : pygrammar),
+  wf_py g -> (N.of_nat (length g) < 10 ^ 20)%N -> ph_fresh ph g ->
+  existsb (fun r => has_lt (snd r)) g = false ->
+  existsb K_besc (g_terminals g) = false -> existsb K_besc_overlap (g_terminals g) = false ->
+  K_nt_escape g = false -> K_empty_nt g = false ->
+  parse_bnf ph (unparse_grammar g) = Ok g.
+Proof. exact no_lt_identity. Qed.
+Print Assumptions C11_no_lt_identity_partial.
+
+Example C11_no_lt_identity_nonvacuous :
+  wf_py ex_grammar /\ (N.of_nat (length ex_grammar) < 10 ^ 20)%N /\ ph_fresh ex_ph ex_grammar /\
+  existsb (fun r => has_lt (snd r)) ex_grammar = false /\
+  existsb K_besc (g_terminals ex_grammar) = false /\ existsb K_besc_overlap (g_terminals ex_grammar) = false /\
+  K_nt_escape ex_grammar = false /\ K_empty_nt ex_grammar = false /\
+  unparse_grammar ex_grammar <> [].
+Proof. exact no_lt_identity_example. Qed.
+Print Assumptions C11_no_lt_identity_nonvacuous.
+
+(* language clause, grammar-theoretic core (Grammar.v `derives`; no guard): cut every terminal of
+   G at its '<' characters, write the fresh nonterminal F for each of them, add F ::= "<"
+   (that grammar is G' F G): every other nonterminal keeps its language.  `alt_clean`: no suffix
+   of a terminal starts with a nonterminal (true of helpers.canonical: C11_canonical_pieces). *)
+Theorem C11_chop_language : forall F, is_nt F = true -> forall G : grammar,
+  defined G F = false ->
+  (forall r al, In r G -> In al (snd r) -> alt_clean al) ->
+  (forall r al, In r G -> In al (snd r) -> ~ In F al) ->
+  forall A w, is_nt A = true -> A <> F -> (L (G' F G) A w <-> L G A w).
+Proof. exact chop_language. Qed.
+Print Assumptions C11_chop_language.
+
+Theorem C11_canonical_pieces : forall s,
+  Forall tok_ok (split_expansion s) /\ altb false (split_expansion s) = true.
+Proof. exact split_expansion_ok. Qed.
+Print Assumptions C11_canonical_pieces.
+
+(* what the re-parsed grammar IS, terminals with '<' allowed: every terminal '<' replaced by the
+   free <langle> name; the rule <langle> ::= "<" appended iff the model of
+   reachable_nonterminals finds it from <start> *)
+Theorem C11_reparse_shape_partial : forall ph (g : pygrammar),
+  wf_py g -> (N.of_nat (length g) < 10 ^ 20)%N -> ph_ok ph -> ph_fresh ph g ->
+  terminals_ok g -> K_nt_escape g = false -> K_empty_nt g = false ->
+  parse_bnf ph (unparse_grammar g)
+  = Ok (if mem_str (free_name g) (reachable (lt_rules (free_name g) g ++ [langle_rule (free_name g)]))
+        then lt_rules (free_name g) g ++ [langle_rule (free_name g)]
+        else lt_rules (free_name g) g).
+Proof. exact reparse_shape. Qed.
+Print Assumptions C11_reparse_shape_partial.
+
+(* the reachability test succeeds outside class K_langle_unreach *)
+Theorem C11_langle_rule_added : forall g : pygrammar,
+  NoDup (map fst g) ->
+  existsb (fun r => has_lt (snd r)) g = true -> K_langle_unreach g = false ->
+  mem_str (free_name g) (reachable (lt_rules (free_name g) g ++ [langle_rule (free_name g)])) = true.
+Proof. exact langle_rule_added. Qed.
+Print Assumptions C11_langle_rule_added.
+
+(* language clause.  FULL STATEMENT: forall well-formed g with '<' in some terminal, the re-parsed
+   grammar has the same language for every nonterminal of g.  Guards = recorded classes only. *)
+Theorem C11_langle_language_partial : forall ph (g : pygrammar),
+  wf_py g -> (N.of_nat (length g) < 10 ^ 20)%N -> ph_ok ph -> ph_fresh ph g ->
+  terminals_ok g -> K_nt_escape g = false -> K_empty_nt g = false ->
+  existsb (fun r => has_lt (snd r)) g = true -> K_langle_unreach g = false ->
+  exists g', parse_bnf ph (unparse_grammar g) = Ok g' /\
+    In (langle_rule (free_name g)) g' /\
+    forall A w, In A (map fst g) -> is_nt A = true ->
+      (L (canonical g') A w <-> L (canonical g) A w).
+Proof. exact langle_language_reach. Qed.
+Print Assumptions C11_langle_language_partial.
+
+Example C11_langle_language_nonvacuous :
+  wf_py ex_lt_grammar /\ (N.of_nat (length ex_lt_grammar) < 10 ^ 20)%N /\ ph_ok ex_ph /\ ph_fresh ex_ph ex_lt_grammar /\
+  terminals_ok ex_lt_grammar /\ K_nt_escape ex_lt_grammar = false /\ K_empty_nt ex_lt_grammar = false /\
+  existsb (fun r => has_lt (snd r)) ex_lt_grammar = true /\ K_langle_unreach ex_lt_grammar = false /\
+  parse_bnf ex_ph (unparse_grammar ex_lt_grammar)
+  = Ok ex_lt_grammar'.
+Proof. exact langle_language_example. Qed.
+Print Assumptions C11_langle_language_nonvacuous.
+
+(* without the guard K_langle_unreach the language clause is FALSE for the model (finding
+   langle-unreachable):  <start> ::= "a" ; <u> ::= "<"  loses the string "<" of <u> *)
+Theorem C11_langle_language_refuted :
+  exists g, wf_py g /\ ph_ok ex_ph /\ ph_fresh ex_ph g /\ terminals_ok g /\
+    K_nt_escape g = false /\ K_empty_nt g = false /\ K_langle_unreach g = true /\
+    exists g', parse_bnf ex_ph (unparse_grammar g) = Ok g' /\
+      exists A w, In A (map fst g) /\ is_nt A = true /\ L (canonical g) A w /\ ~ L (canonical g') A w.
+Proof. exact langle_language_refuted. Qed.
+Print Assumptions C11_langle_language_refuted.
+
+(* both clauses in one statement *)
+Theorem C11_reparse_same_language_partial : forall ph (g : pygrammar),
+  wf_py g -> (N.of_nat (length g) < 10 ^ 20)%N -> ph_ok ph -> ph_fresh ph g ->
+  terminals_ok g -> K_nt_escape g = false -> K_empty_nt g = false -> K_langle_unreach g = false ->
+  exists g', parse_bnf ph (unparse_grammar g) = Ok g' /\
+    (existsb (fun r => has_lt (snd r)) g = false -> g' = g) /\
+    forall A w, In A (map fst g) -> is_nt A = true ->
+      (L (canonical g') A w <-> L (canonical g) A w).
+Proof. exact reparse_same_language. Qed.
+Print Assumptions C11_reparse_same_language_partial.
